@@ -174,9 +174,9 @@ func (c *Ctx) ringSpaceAccounting() {
 		}
 	}
 	c.R.Count("consumer-cursor stores (space accounting)", cnt["cset"])
-	c.R.Floor("consumer-cursor stores (space accounting)", cnt["cset"], 3)
+	c.R.Floor("consumer-cursor stores (space accounting)", cnt["cset"], 2)
 	c.R.Count("producer-cursor stores (space accounting)", cnt["pset"])
-	c.R.Floor("producer-cursor stores (space accounting)", cnt["pset"], 2)
+	c.R.Floor("producer-cursor stores (space accounting)", cnt["pset"], 1)
 	c.R.Count("successful returns of the space reservation", cnt["post"])
 	c.R.Floor("successful returns of the space reservation", cnt["post"], 1)
 	c.R.Count("returns handing ring memory to the consumer's caller", cnt["handout"])
@@ -231,9 +231,8 @@ func (sp *spaceRules) pureRead(v ssa.Value, cursor string, seen map[ssa.Value]bo
 		if f == nil {
 			return false
 		}
-		if f.Name() == "get" && recvNamed(f) == "sequence" && len(x.Common().Args) > 0 {
-			p := ir.PathOf(x.Common().Args[0])
-			return len(p.Fields) > 0 && p.Fields[len(p.Fields)-1] == cursor
+		if cur, ok := cursorReadCall(x); ok {
+			return cur == cursor
 		}
 		if sp.c.P.InLib(f) && f.Signature.Results().Len() == 1 && recvNamed(f) == "buffer" {
 			return sp.helperYields(f, 0, cursor, seen)
